@@ -850,6 +850,22 @@ def alloc_count_bound(ix, op, depth=0):
     return None
 
 
+def const_array_len(ix, op):
+    """N when the operand is `arr.len()` of a fixed-size array `[T; N]` (the slice handed to len() is an unsize
+    coercion of a reference to the array), else None."""
+    r = ix.resolve(op)
+    if r[0] == "cast":
+        return const_array_len(ix, r[1]["a"])
+    if not (r[0] == "call" and ix.callee(r[1]).endswith("]>::len") and r[1]["args"]):
+        return None
+    a = ix.resolve(r[1]["args"][0])
+    ty_ = (op_place(r[1]["args"][0]) or {}).get("ty", "")
+    if a[0] in ("cast", "rv") and isinstance(a[1], dict) and "Unsize" in str(a[1].get("ck", "")):
+        ty_ = a[1].get("from", "")
+    m = re.search(r"^&(?:mut )?\[[^;\]]+; (\d+)\]$", ty_)
+    return int(m.group(1)) if m else None
+
+
 def upper_bound(ix, op, depth=0):
     """A constant strict upper bound for an integer operand, or None.  Only masks, remainders, narrow casts, shifts."""
     if depth > 8:
@@ -886,6 +902,9 @@ def upper_bound(ix, op, depth=0):
                 v = const_int(b)
                 if v and v > 0:
                     return v
+                n_ = const_array_len(ix, b)
+                if n_:
+                    return n_
             if op_ in ("Shr", "ShrUnchecked"):
                 v = const_int(b)
                 ua = upper_bound(ix, a, depth + 1)
@@ -1213,6 +1232,8 @@ def discharge(ix, s):
                             break
                     if dd is not d and dd[0] == "const" and dd[1] != 0:
                         return "D2 non-zero constant divisor (widened with From)"
+                    if const_array_len(ix, x):
+                        return "D2 divisor is the length of a non-empty fixed-size array"
                     if d[0] == "cast" and d[3][0] == "call":
                         d = d[3]  # value-preserving for the small sizes accepted below
                     if d[0] == "call" and ix.callee(d[1]).endswith("mem::size_of"):
@@ -1410,6 +1431,9 @@ def discharge(ix, s):
                 m = re.search(r"\[[^;\]]+; (\d+)\]", (op_place(cont) or {}).get("ty", ""))
                 if hi[0] == "const" and m and hi[1] <= int(m.group(1)):
                     return "D1 constant range within the array length"
+                ub_ = upper_bound(ix, o[0])
+                if m and ub_ and ub_ - 1 <= int(m.group(1)):
+                    return "D2 range end is a remainder / masked value not above the array length"
                 if hi[0] == "call" and ix.callee(hi[1]).split("::")[-1] == "min":
                     for x in hi[1]["args"]:
                         if len_of(ix, x) == cdesc:
